@@ -85,7 +85,8 @@ def enqueue (s : St) (a : Act) : St × List Cmd :=
   | .despawn e => if s.alive e then (s, [.despawn e]) else (s, [])
   | .despawnRec e => if s.alive e then (s, [.despawnRec e]) else (s, [])
   | .ewrAdd wr e v =>
-    if s.alive e then (s, [.ewrInsertLocal e wr v, .register (ewrBundle wr e) (s.ewrSys wr) .persistent]) else (s, [])
+    -- `EntityCommands::add_world_reactor` queues a syscall; `EntityReactor::add` looks the entity up again when it runs
+    if s.alive e then (s, [.ewrAdd e wr v (s.ewrSys wr)]) else (s, [])
   | .ewrRemove wr trigs =>
     (s, [.revoke (s.ewrSys wr) trigs] ++ (uniqueEntities trigs []).map (fun e => Cmd.ewrCleanupData (s.ewrSys wr) e wr))
   | .wrAdd wr trigs => (s, [.register trigs (s.wrSys wr) .persistent])
@@ -184,6 +185,9 @@ def applyCmd (s : St) (c : Cmd) : St :=
     match s.entReactors e with
     | some l => if l.any (fun p => p.2.sys == sys) then s else { s with ewLocal := upd s.ewLocal e (aerase (s.ewLocal e) wr) }
     | none => s
+  | .ewrAdd e wr v sys =>
+    -- `EntityReactor::add`: nothing if the entity is gone by now, otherwise the local data and the registration
+    if s.alive e then s.push [.flush, .batch [.ewrInsertLocal e wr v, .register (ewrBundle wr e) sys .persistent]] else s
 
 /-! ### the step function -/
 
